@@ -52,6 +52,40 @@ theorem unclassifiable_sent_directly (cfg : Cfg) (hw : cfg.wf = true) (t0 : Nat)
     Bool.not_eq_true'] at hr
   exact noSwallow_direct_only o hr.1.1.1 hr.1.2
 
+/-- Asking the filter directly (`TrafficFilter.is_allowed`), anywhere in a run and with the cache
+    the calls have filled so far, always yields an answer and the answer is the routing rule. -/
+theorem decisions_hold (cfg : Cfg) (hw : cfg.wf = true) (t0 : Nat) (is : List Input) :
+    decisionsOk cfg (runDec cfg (St.init t0) is) = true :=
+  runDec_ok cfg hw is (St.init t0) Ref.init (rel_init cfg t0)
+
+/-- The decision is total and exception-free for EVERY resolver outcome of the modelled set
+    (`gaierror`, plain `OSError`, `herror`, `timeout`, `UnicodeError`): a name that is not an IP
+    literal, is not cached and does not resolve to an address is answered "do not route", and the
+    failure is not cached (whatever the cache, lists validity and block list). -/
+theorem resolver_failure_not_routed (cfg : Cfg) (c : Cache) (h : Str) (hdr : Hdr)
+    (hh : hdrOverride hdr = none) (ha : (mkFilter cfg).allow = none)
+    (hv : validateIp h = false) (hc : cacheGet c h = none)
+    (hr : cfg.resolve h = .gaierror ∨ cfg.resolve h = .oserror ∨ cfg.resolve h = .herror ∨
+          cfg.resolve h = .timeout ∨ cfg.resolve h = .unicodeErr) :
+    isAllowed cfg (mkFilter cfg) c h hdr = (false, c) := by
+  apply isAllowed_of_resolver_failure cfg c h hdr hh ha hv hc
+  intro a ha'
+  rcases hr with e | e | e | e | e <;> rw [e] at ha' <;> exact absurd ha' (by simp)
+
+/-- … and on every run such a call is sent to the provider only, the application gets the
+    provider's answer, nothing is raised (no header override, no allow list). -/
+theorem resolver_failure_sent_directly (cfg : Cfg) (hw : cfg.wf = true) (t0 : Nat) (is : List Input)
+    (o : Obs) (ho : o ∈ run cfg (St.init t0) is)
+    (hh : hdrOverride o.inp.hdr = none) (ha : allowEntries cfg = none)
+    (hp : parseIPv4 o.inp.host = none) (hr : ∀ a, cfg.resolve o.inp.host ≠ .ip a) :
+    o.out.sent = [.direct] ∧ o.out.result = directResult o.inp := by
+  obtain ⟨r, hr'⟩ := holdsFrom_mem cfg _ _ (c19_holds cfg hw t0 is) o ho
+  have hroute : shouldRoute cfg o.inp.host o.inp.hdr = false := by
+    simp [shouldRoute, hh, ha, external_false_of_no_addr cfg _ hp hr]
+  simp only [eventOk, filterRespected, hroute, Bool.and_eq_true, Bool.or_false,
+    Bool.not_eq_true'] at hr'
+  exact noSwallow_direct_only o hr'.1.1.1 hr'.1.2
+
 /-! ## The breaker -/
 
 /-- After `max` (or more) consecutive gateway-side failures of routed calls, every call made
@@ -258,6 +292,16 @@ private def good : Input := .call ⟨api, .absent, .ok, .ok⟩
 example :
     (run cfg21 (St.init 100) [fail1, fail2, .adv 7, good, .adv 1, good]).map (fun o => (o.t, o.out.sent))
       = [(100, [.gw, .direct]), (100, [.gw, .direct]), (107, [.direct]), (108, [.gw])] := by
+  decide
+
+/-- `resolver_failure_not_routed` / `decisions_hold`: a resolver system error (plain `OSError`),
+    `herror`, `timeout`: the call goes to the provider, the filter answers "no", nothing is cached. -/
+example :
+    let h : Str := ['d', 'b']
+    (call ⟨2, 1, none, none, [(h, .oserror)]⟩ (St.init 0) ⟨h, .absent, .ok, .ok⟩).2 = ⟨[.direct], .respDirect⟩ ∧
+    (call ⟨2, 1, none, none, [(h, .herror)]⟩ (St.init 0) ⟨h, .absent, .ok, .exc⟩).2 = ⟨[.direct], .raiseDirectApp⟩ ∧
+    (runDec ⟨2, 1, none, none, [(h, .timeout)]⟩ (St.init 0) [.decide h .absent]).map (·.answer) = [false] ∧
+    (runSt ⟨2, 1, none, none, [(h, .oserror)]⟩ (St.init 0) [.decide h .absent]).cache = [] := by
   decide
 
 /-- `decision_total` / `unclassifiable_sent_directly`: `::1` and a name whose resolution raises
